@@ -124,7 +124,9 @@ class Rig:
         r = self.Message()
         r.add_int(cid)
         if self.reply_ok:
-            r.add_int(7000 + (cid & 0xFF))
+            # the peer's id for the channel: whenever possible the LOCAL id of another live channel (the two id
+            # spaces are independent, so this happens all the time)
+            r.add_int(next((i for i in sorted(self.held) if i != cid), 7000 + (cid & 0xFF)))
             r.add_int(getattr(self, "reply_window", 1 << 21))
             r.add_int(getattr(self, "reply_maxpkt", 1 << 15))
             r.rewind()
@@ -198,7 +200,8 @@ class Rig:
     def peer_open(self, kind, accept=True, nested=None):
         """returns (id, counter after the allocation, registered?) or None when the request is refused before
         any allocation"""
-        m = self.peer_msg(kind)
+        # the peer's own id for the channel: the local id of one of our live channels when there is one
+        m = self.peer_msg(kind, peer_id=next(iter(sorted(self.held)), 55))
         self.nested = nested
         self.cb_result = 0 if accept else 1
         self.pending = None
@@ -225,6 +228,17 @@ class Rig:
             self.t._channels.delete(cid)
         elif how == "peer-close":
             obj._handle_close(None)
+            # the peer's CLOSE releases THIS channel, and only it
+            if self.t._channels.get(cid) is not None:
+                self.problems.append(("closed-channel-still-registered",
+                                      "id %d is still in the channel map after the peer's CLOSE was handled "
+                                      "(remote id %r)" % (cid, getattr(obj, "remote_chanid", None))))
+            for oid, other in self.held.items():
+                if self.t._channels.get(oid) is not other:
+                    self.problems.append(("open-channel-dropped-from-map",
+                                          "handling the peer's CLOSE for channel %d (remote id %r) removed the open "
+                                          "channel %d from the map" % (cid, getattr(obj, "remote_chanid", None), oid)))
+                    break
         elif how == "unlink":
             obj._unlink()
         else:  # weak reference dies
@@ -672,6 +686,9 @@ def run(ctx):
                             + lib_chanids.translate_next_channel(Transport))
     except lib_chanids.Untranslatable as e:
         ctx.broken.append({"kind": "translator", "what": "Transport._next_channel", "detail": str(e)[:300]})
+    import paramiko.channel as chmod
+    from pv import lib_chanlock
+    ctx.write_generated("ChanLock", lib_chanlock.lean_tables_for(chmod.Channel))
     ctx.build()
     rng = ctx.rng
     n_hist = 12000 if ctx.thorough else 2000
